@@ -46,7 +46,8 @@ Qed.
 Lemma be_val_cons : forall b l, be_val (b :: l) = b * 256 ^ N.of_nat (length l) + be_val l.
 Proof.
   intros b l. unfold be_val. change (fun acc b0 : N => acc * 256 + b0) with be_step.
-  cbn [fold_left]. rewrite be_fold_acc. unfold be_step at 2. now rewrite N.mul_0_l, N.add_0_l.
+  cbn [fold_left]. rewrite be_fold_acc.
+  replace (be_step 0 b) with b by (unfold be_step; lia). reflexivity.
 Qed.
 
 Lemma be_val_be_bytes : forall w n, be_val (be_bytes w n) = n mod 256 ^ N.of_nat w.
